@@ -421,4 +421,156 @@ theorem gen_sample_indices_eq {st : List Nat} (hl : st.length = 16) (hc : CanonL
   | none => rfl
   | some t => rfl
 
+/-! ### `sample_scalars` (P10): `(0..k).flat_map(|_| self.squeeze()).collect_vec().chunks(3).take(n).map(..).collect()` -/
+
+/-- an extension-field element: the three coefficients as raw words -/
+def encTriple (t : Nat × Nat × Nat) : List Nat := [bfe_new t.1, bfe_new t.2.1, bfe_new t.2.2]
+
+/-- the inner `for x in squeeze_output { v.push(x) }` is `v.extend(squeeze_output)` -/
+theorem scalars_for2_eq : ∀ (xs acc : List Nat),
+    Loops.tip5_sample_scalars_for2 xs acc = acc ++ xs ∧ Loops.tip5_sample_scalars_for2_ok xs acc = true
+  | [], acc => ⟨by rw [Loops.tip5_sample_scalars_for2, List.append_nil], rfl⟩
+  | x :: xs, acc => by
+    obtain ⟨h1, h2⟩ := scalars_for2_eq xs (acc ++ [x])
+    constructor
+    · rw [Loops.tip5_sample_scalars_for2, h1, List.append_assoc]; rfl
+    · rw [Loops.tip5_sample_scalars_for2_ok]; exact h2
+
+/-- `k` rounds of the `flat_map` closure = `k` successive squeezes of the hand model -/
+theorem scalars_for_eq : ∀ (k i : Nat) (st acc : List Nat), st.length = 16 → CanonL st →
+    Loops.tip5_sample_scalars_for k i (enc st) acc
+      = (enc (squeezeN permV k st).2, acc ++ enc (squeezeN permV k st).1) := by
+  intro k
+  induction k with
+  | zero =>
+    intro i st acc _ _
+    rw [Loops.tip5_sample_scalars_for, squeezeN]
+    show (enc st, acc) = (enc st, acc ++ enc [])
+    rw [show enc [] = [] from rfl, List.append_nil]
+  | succ k ih =>
+    intro i st acc hl hc
+    obtain ⟨hs, hc', hl'⟩ := gen_squeeze_eq hl hc
+    have h1 := ih (i + 1) (squeeze permV st).2 (acc ++ enc (squeeze permV st).1) hl' hc'
+    rw [Loops.tip5_sample_scalars_for]
+    show Loops.tip5_sample_scalars_for k (i + 1) (Loops.tip5_squeeze (enc st)).2
+      (Loops.tip5_sample_scalars_for2 (Loops.tip5_squeeze (enc st)).1 acc) = _
+    rw [hs, (scalars_for2_eq _ _).1, h1, squeezeN]
+    show _ = (_, acc ++ enc ((squeeze permV st).1 ++ (squeezeN permV k (squeeze permV st).2).1))
+    rw [enc_append, List.append_assoc]
+
+/-- the `_ok` flag of the rounds holds as soon as the regenerated permutation's does on canonical states -/
+theorem scalars_for_ok (hperm : ∀ s : List Nat, s.length = 16 → CanonL s → Loops.tip5_permutation_ok (enc s) = true) :
+    ∀ (k i : Nat) (st acc : List Nat), st.length = 16 → CanonL st →
+    Loops.tip5_sample_scalars_for_ok k i (enc st) acc = true := by
+  intro k
+  induction k with
+  | zero => intro i st acc _ _; rfl
+  | succ k ih =>
+    intro i st acc hl hc
+    obtain ⟨hs, hc', hl'⟩ := gen_squeeze_eq hl hc
+    have h2 := ih (i + 1) (squeeze permV st).2 (acc ++ enc (squeeze permV st).1) hl' hc'
+    have hlen : decide (10 ≤ (enc st).length) = true := decide_eq_true (by rw [enc_length, hl]; omega)
+    have hsq : Loops.tip5_squeeze_ok (enc st) = true := by
+      show (((decide (10 ≤ (enc st).length)) && (10 == 10)) && (Loops.tip5_permutation_ok (enc st))) = true
+      rw [hlen, hperm st hl hc]; rfl
+    rw [Loops.tip5_sample_scalars_for_ok]
+    show (Loops.tip5_squeeze_ok (enc st) && (Loops.tip5_sample_scalars_for2_ok (Loops.tip5_squeeze (enc st)).1 acc &&
+      Loops.tip5_sample_scalars_for_ok k (i + 1) (Loops.tip5_squeeze (enc st)).2
+        (Loops.tip5_sample_scalars_for2 (Loops.tip5_squeeze (enc st)).1 acc))) = true
+    rw [hsq, hs, (scalars_for2_eq _ _).1, (scalars_for2_eq _ _).2, h2]; rfl
+
+theorem chunks3_eq_chunksOf : ∀ (f : Nat) (l : List Nat), chunks3 f l = chunksOf 3 f l
+  | 0, _ => rfl
+  | f+1, l => by rw [chunks3, chunksOf, chunks3_eq_chunksOf f]
+
+theorem toTriple_some {c : List Nat} {t : Nat × Nat × Nat} (h : toTriple c = some t) : c = [t.1, t.2.1, t.2.2] := by
+  unfold toTriple at h
+  split at h
+  · cases h; rfl
+  · cases h
+
+/-- the regenerated closure `|elem| XFieldElement::new([elem[0], elem[1], elem[2]])` with its checks -/
+def tripleFn (elem : List Nat) : List Nat := [(elem.getD 0 0), (elem.getD 1 0), (elem.getD 2 0)]
+def tripleOk (elem : List Nat) : Bool :=
+  ((decide (0 < elem.length)) && (decide (1 < elem.length)) && (decide (2 < elem.length))) &&
+    ([(elem.getD 0 0), (elem.getD 1 0), (elem.getD 2 0)].length == 3)
+
+theorem tripleFn_map (f : Nat → Nat) (a b c : Nat) : tripleFn (List.map f [a, b, c]) = [f a, f b, f c] := rfl
+theorem tripleOk_map (f : Nat → Nat) (a b c : Nat) : tripleOk (List.map f [a, b, c]) = true := rfl
+
+theorem triple_enc (t : Nat × Nat × Nat) :
+    tripleFn (enc [t.1, t.2.1, t.2.2]) = encTriple t ∧ tripleOk (enc [t.1, t.2.1, t.2.2]) = true := by
+  unfold enc encTriple
+  exact ⟨tripleFn_map bfe_new _ _ _, tripleOk_map bfe_new _ _ _⟩
+
+/-- grouping in threes: on chunks of raw words the regenerated closure never indexes out of bounds and returns the
+    encoded triples exactly when the model's `toTriple` succeeds on all chunks -/
+theorem triples_enc : ∀ (cs : List (List Nat)) (groups : List (Nat × Nat × Nat)), cs.mapM toTriple = some groups →
+    (cs.map enc).map tripleFn = groups.map encTriple ∧ (cs.map enc).all tripleOk = true := by
+  intro cs
+  induction cs with
+  | nil =>
+    intro groups h
+    have : groups = [] := by simpa using h.symm
+    subst this; exact ⟨rfl, rfl⟩
+  | cons c cs ih =>
+    intro groups h
+    rw [List.mapM_cons] at h
+    cases ht : toTriple c with
+    | none => rw [ht] at h; cases h
+    | some t =>
+      rw [ht] at h
+      cases hm : cs.mapM toTriple with
+      | none => rw [hm] at h; cases h
+      | some gs =>
+        rw [hm] at h
+        cases h
+        obtain ⟨h1, h2⟩ := ih gs hm
+        rw [toTriple_some ht]
+        constructor
+        · rw [List.map_cons, List.map_cons, h1, (triple_enc t).1, List.map_cons]
+        · rw [List.map_cons, List.all_cons, h2, (triple_enc t).2]; rfl
+
+/-- regenerated `Tip5::sample_scalars` = the hand model, on every canonical state and every `num` with `3·num < 2^64` -/
+theorem gen_sample_scalars_eq {st : List Nat} (hl : st.length = 16) (hc : CanonL st) (num : Nat)
+    (hnum : num * 3 < 18446744073709551616) :
+    some (Loops.tip5_sample_scalars (enc st) num)
+      = (sampleScalars permV st num).map (fun r => (r.1.map encTriple, enc r.2)) ∧
+    ((∀ s : List Nat, s.length = 16 → CanonL s → Loops.tip5_permutation_ok (enc s) = true) →
+      Loops.tip5_sample_scalars_ok (enc st) num = true) := by
+  have e1 : (num * 3) % 18446744073709551616 = num * 3 := Nat.mod_eq_of_lt hnum
+  have e2 : (num * 3 + RATE - 1) / RATE = (num * 3 + 10 - 1) / 10 := rfl
+  obtain ⟨groups, hg, _, _⟩ := sampleScalars_eq permV_pres (st := st) (by rw [hl]; rfl) num
+  have hg' := hg
+  unfold sampleScalars at hg'
+  simp only [e2] at hg'
+  cases hm : ((chunks3 (squeezeN permV ((num * 3 + 10 - 1) / 10) st).1.length
+      (squeezeN permV ((num * 3 + 10 - 1) / 10) st).1).take num).mapM toTriple with
+  | none => rw [hm] at hg'; cases hg'
+  | some gs =>
+    have hch : TF.RustIter.chunks 3 (enc (squeezeN permV ((num * 3 + 10 - 1) / 10) st).1)
+        = (chunks3 (squeezeN permV ((num * 3 + 10 - 1) / 10) st).1.length
+            (squeezeN permV ((num * 3 + 10 - 1) / 10) st).1).map enc := by
+      rw [TF.RustIter.chunks, enc_length, chunks_enc, chunks3_eq_chunksOf]
+    obtain ⟨t1, t2⟩ := triples_enc _ gs hm
+    rw [List.map_take] at t1 t2
+    have f1 := scalars_for_eq ((num * 3 + 10 - 1) / 10) 0 st [] hl hc
+    rw [List.nil_append] at f1
+    constructor
+    · unfold sampleScalars
+      simp only [e2, hm, Option.map_some]
+      show some (((TF.RustIter.chunks 3 (Loops.tip5_sample_scalars_for
+          (((num * 3) % 18446744073709551616 + 10 - 1) / 10 - 0) 0 (enc st) []).2).take num).map tripleFn,
+        (Loops.tip5_sample_scalars_for (((num * 3) % 18446744073709551616 + 10 - 1) / 10 - 0) 0 (enc st) []).1) = _
+      rw [e1, Nat.sub_zero, f1, hch, t1]
+    · intro hperm
+      have f2 := scalars_for_ok hperm ((num * 3 + 10 - 1) / 10) 0 st [] hl hc
+      have c1 : decide (num * 3 < 18446744073709551616) = true := decide_eq_true hnum
+      show ((decide (num * 3 < 18446744073709551616) && (10 != 0)) &&
+        (Loops.tip5_sample_scalars_for_ok (((num * 3) % 18446744073709551616 + 10 - 1) / 10 - 0) 0 (enc st) [] &&
+          ((3 != 0) && ((TF.RustIter.chunks 3 (Loops.tip5_sample_scalars_for
+            (((num * 3) % 18446744073709551616 + 10 - 1) / 10 - 0) 0 (enc st) []).2).take num).all tripleOk))) = true
+      rw [e1, Nat.sub_zero, c1, f1, f2, hch, t2]
+      rfl
+
 end TF.GenBridge.Sponge
